@@ -66,6 +66,7 @@ type Result struct {
 	AssumeEnded    int
 	Decisions      int
 	Forks          int
+	PinLearned     int // inputs fixed through a solver query after a concretisation
 	PinDecided     int // branch alternatives decided by evaluation under inputs fixed by equalities of the path condition
 	Steps          int64
 	Labels         map[string]*LabelStat
@@ -89,6 +90,12 @@ type Result struct {
 type decision struct {
 	feasible []int
 	idx      int
+	learned  [][]learnedPin // per alternative of a concretisation: inputs the solver showed to be forced (nil = not asked yet)
+}
+
+type learnedPin struct {
+	id int
+	v  uint64
 }
 
 type pathEnd struct {
@@ -179,6 +186,9 @@ func New(prog *ssa.Program, opt Options) (*Interp, error) {
 	}
 	if it.opt.MaxSteps == 0 {
 		it.opt.MaxSteps = 4000000
+		if it.opt.Thorough {
+			it.opt.MaxSteps = 40000000
+		}
 	}
 	if it.opt.LoopBound == 0 {
 		it.opt.LoopBound = 300
@@ -384,10 +394,12 @@ func (it *Interp) concretize(v Int, max int, why string) uint64 {
 		}
 	}
 	if it.dpos < len(it.decisions) {
-		d := it.decisions[it.dpos]
+		di := it.dpos
+		d := it.decisions[di]
 		it.dpos++
 		val := uint64(d.feasible[d.idx])
 		it.addPC(it.ctx.Eq(v.T, it.ctx.BV(w, val)))
+		it.learnPins(di, d.idx, v.T)
 		return val
 	}
 	// enumerate values with the solver
@@ -439,7 +451,89 @@ func (it *Interp) concretize(v Int, max int, why string) uint64 {
 	it.decisions = append(it.decisions, decision{feasible: vals})
 	it.dpos++
 	it.addPC(it.ctx.Eq(v.T, it.ctx.BV(w, uint64(vals[0]))))
+	it.learnPins(len(it.decisions)-1, 0, v.T)
 	return uint64(vals[0])
+}
+
+// learnPins: after a term has been fixed to one of its values, the (few) inputs it is built from are often forced as
+// well, although the term is not invertible syntactically (ite, shifts, masks). The solver is asked once per
+// alternative of the concretisation (the answer is kept in the decision record and re-applied on replays): an input
+// whose model value cannot be changed is fixed for the rest of the path, and every later condition over fixed inputs
+// is decided by evaluation.
+func (it *Interp) learnPins(di, alt int, t *sym.Term) {
+	d := &it.decisions[di]
+	if d.learned == nil {
+		d.learned = make([][]learnedPin, len(d.feasible))
+	}
+	if alt >= len(d.learned) {
+		return
+	}
+	if d.learned[alt] == nil {
+		d.learned[alt] = []learnedPin{}
+		vars := inputVars(t, 4)
+		var todo []*sym.Term
+		for _, x := range vars {
+			if _, ok := it.pins[x.ID]; !ok {
+				todo = append(todo, x)
+			}
+		}
+		if len(todo) > 0 {
+			it.sol.SyncPC(it.pc)
+			if it.sol.CheckWith(it.ctx.True()) == sym.Sat {
+				m, err := it.sol.Values(todo)
+				it.sol.ReleaseModel()
+				if err == nil {
+					for _, x := range todo {
+						mv := m[x.ID]
+						r := it.sol.CheckWith(it.ctx.Not(it.ctx.Eq(x, it.ctx.BV(x.Sort.W, mv))))
+						it.sol.ReleaseModel()
+						if r == sym.Unsat {
+							d.learned[alt] = append(d.learned[alt], learnedPin{x.ID, mv})
+						}
+					}
+				}
+			} else {
+				it.sol.ReleaseModel()
+			}
+		}
+	}
+	for _, lp := range d.learned[alt] {
+		if it.pins == nil {
+			it.pins = map[int]uint64{}
+		}
+		it.pins[lp.id] = lp.v
+		it.res.PinLearned++
+	}
+}
+
+// inputVars returns the input variables a term is built from, or nil when there are more than max of them.
+func inputVars(t *sym.Term, max int) []*sym.Term {
+	seen := map[int]bool{}
+	var out []*sym.Term
+	var walk func(*sym.Term) bool
+	walk = func(x *sym.Term) bool {
+		if seen[x.ID] {
+			return true
+		}
+		seen[x.ID] = true
+		if x.Op == "var" {
+			if x.Sort.K != sym.KBV || x.Sort.W <= 0 || x.Sort.W > 64 {
+				return false
+			}
+			out = append(out, x)
+			return len(out) <= max
+		}
+		for _, a := range x.Args {
+			if !walk(a) {
+				return false
+			}
+		}
+		return true
+	}
+	if !walk(t) {
+		return nil
+	}
+	return out
 }
 
 func (it *Interp) checkDeadline() {
